@@ -3,6 +3,8 @@ CONSTANTS
   Sent <- SentShort
   Prefix = 4
   Cap = 100
+  MaxGiveUps = 0
+  ResumeAfterTimeout = FALSE
   EofYieldsShort = FALSE
   MaxPend = 0
 CHECK_DEADLOCK FALSE
